@@ -29,8 +29,8 @@
 //!
 //! Oracle (on the implementation, no model): every task gets exactly one result by the end of the
 //! case; a backend reply delivered to a task carries that task's id; after the backend has been
-//! silent for several timeouts no task is left unanswered (F08a); no request is written on more
-//! than 1 + MAX_BACKEND_RETRY connections (F08b).
+//! silent for several timeouts no task is left unanswered; no request is written on more than
+//! 1 + MAX_BACKEND_RETRY connections (known finding F08b).
 use futures::{Sink, SinkExt, Stream, TryStreamExt};
 use serde_json::json;
 use std::collections::{BTreeMap, VecDeque};
@@ -1612,7 +1612,10 @@ fn oracle(case: u64, cfg: &Cfg, script: &[Op], out: &CaseOut, st: &mut Stats) {
     }
     if !out.silent_unanswered.is_empty() {
         st.count("out.silence");
-        let fid = if out.silent_pred { "F08a" } else { "" };
+        // (hypothesis F08a — timeout_interval left without a waker after a tick — did not hold: tokio keeps
+        // the waker of the previous poll registered across `Interval::reset`; any hit here is a violation)
+        let _ = out.silent_pred;
+        let fid = "";
         st.oracle_failure(
             case,
             &format!(
